@@ -132,6 +132,13 @@ NumCases == {
   One(Eq(b, Hx(10, 4)), "hex-literal"), One(Eq(b, Bn(5, 4)), "bin-literal"), One(Eq(b, BvL(9, 4)), "bv-underscore-literal"),
   One(Eq(Ap("concat", <<b, Hx(171, 8)>>), Ap("concat", <<c, Bn(2, 8)>>)), "hex-width"),
   One(Eq(s, St(<<97, 34, 98>>)), "string-with-quote"), One(Eq(s, St(<<>>)), "empty-string"),
+  \* carriage return, tab and line feed are ordinary characters inside string literals and quoted symbols
+  One(Eq(Ap("str.len", <<St(<<97, 13, 10, 98>>)>>), Nm(4)), "string-with-cr-lf"),
+  One(Eq(Ap("str.len", <<St(<<9, 13>>)>>), Nm(2)), "string-with-tab-cr"),
+  Case(Prelude \o <<DeclFun("p\rq", <<>>, SInt), DeclFun("pq", <<>>, SInt), Asrt(Ap("not", <<Eq(A("p\rq"), A("pq"))>>))>>,
+       "accept", "quoted-symbol-with-cr"),
+  Case(Prelude \o <<DeclFun("a\tb", <<>>, SInt), DeclFun("a b", <<>>, SInt), Asrt(Lt(A("a\tb"), A("a b")))>>,
+       "accept", "quoted-symbols-tab-vs-space"),
   \* escape sequences of the Strings theory: "\u{41}" and "\u0041" are the one-character string "A"
   One(Eq(Ap("str.len", <<St(<<92, 117, 123, 52, 49, 125>>)>>), Nm(1)), "string-escape-braces"),
   One(Eq(s, St(<<97, 92, 117, 48, 48, 52, 49, 98>>)), "string-escape-four-digits"),
